@@ -12,6 +12,123 @@ func init() {
 	register("WORDRESET", "pairing rule on the scanner's pending-word record (start index, length, start offset, in-string flag), decided per arm on the phis where all arms of the scan loop merge: (i) an arm that leaves the length 0 outside string mode moves start index and start offset to i+1; (ii) an arm that enters string mode leaves length 0 (the pending word was emitted), start index i+1 and start offset i; (iii) any other arm leaves start index and start offset untouched (a lazy re-arm is accepted only under length == 0 outside string mode)", ruleWordReset)
 }
 
+// aff is a value written as base + off (off folds constant integer additions).
+type aff struct {
+	base ssa.Value
+	off  int64
+}
+
+func affOf(v ssa.Value) aff {
+	a := aff{base: v}
+	for {
+		bo, ok := a.base.(*ssa.BinOp)
+		if !ok {
+			return a
+		}
+		c, isC := constInt(bo.Y)
+		if !isC {
+			return a
+		}
+		switch bo.Op {
+		case token.ADD:
+			a.off += c
+		case token.SUB:
+			a.off -= c
+		default:
+			return a
+		}
+		a.base = bo.X
+	}
+}
+
+// scanLeaf is one way round the scan loop: the values the header phis receive for the next iteration, taken on
+// the last edge where the ways still differ (merge phis between the arms and the back edge are expanded, so an
+// arm that leaves through `continue` is a leaf of its own).
+type scanLeaf struct {
+	pred, to *ssa.BasicBlock
+	val      map[*ssa.Phi]aff
+}
+
+func scanLeaves(L *Loop, backIdx int) []scanLeaf {
+	H := L.Header
+	start := map[*ssa.Phi]aff{}
+	for _, in := range H.Instrs {
+		if ph, ok := in.(*ssa.Phi); ok {
+			start[ph] = affOf(ph.Edges[backIdx])
+		}
+	}
+	var out []scanLeaf
+	var expand func(pred, to *ssa.BasicBlock, val map[*ssa.Phi]aff, depth int)
+	expand = func(pred, to *ssa.BasicBlock, val map[*ssa.Phi]aff, depth int) {
+		hasPhiIn := func(b *ssa.BasicBlock) bool {
+			for _, a := range val {
+				if ph, ok := a.base.(*ssa.Phi); ok && ph.Block() == b {
+					return true
+				}
+			}
+			return false
+		}
+		b := pred
+		for depth < 6 {
+			if b == H {
+				break
+			}
+			if hasPhiIn(b) {
+				for k, pp := range b.Preds {
+					nv := map[*ssa.Phi]aff{}
+					for h, a := range val {
+						if ph, ok := a.base.(*ssa.Phi); ok && ph.Block() == b {
+							na := affOf(ph.Edges[k])
+							na.off += a.off
+							nv[h] = na
+						} else {
+							nv[h] = a
+						}
+					}
+					expand(pp, b, nv, depth+1)
+				}
+				return
+			}
+			if len(b.Preds) == 1 {
+				b = b.Preds[0]
+				continue
+			}
+			break
+		}
+		out = append(out, scanLeaf{pred, to, val})
+	}
+	expand(H.Preds[backIdx], H, start, 0)
+	return out
+}
+
+// isNextChar: the look-ahead character, Query[i+1] (or a constant past the end).
+func isNextChar(p *Prog, v ssa.Value, idx ssa.Value) bool {
+	ph, ok := v.(*ssa.Phi)
+	if !ok {
+		return false
+	}
+	found := false
+	for _, e := range ph.Edges {
+		var x, ix ssa.Value
+		switch lk := e.(type) {
+		case *ssa.Lookup:
+			x, ix = lk.X, lk.Index
+		case *ssa.Index:
+			x, ix = lk.X, lk.Index
+		case *ssa.Const:
+			continue
+		default:
+			return false
+		}
+		a := affOf(ix)
+		if a.base != idx || a.off != 1 || !p.derivesFromField(x, "Lexer", "Query", traceOpts{}) {
+			return false
+		}
+		found = true
+	}
+	return found
+}
+
 func ruleWordReset(p *Prog, r *Result) {
 	fn := p.MethodByName("Lexer", "Split")
 	bt := p.Func("buildToken")
@@ -98,7 +215,8 @@ func ruleWordReset(p *Prog, r *Result) {
 			}
 		}
 	}
-	// length: header int phi whose back value has a const-0 edge and an increment edge
+	leaves := scanLeaves(L, backIdx)
+	// length: header int phi that some way round the loop resets to 0 and another increments
 	for _, in := range H.Instrs {
 		ph, ok := in.(*ssa.Phi)
 		if !ok || ph == hI || ph == hStart || ph == hPos {
@@ -107,47 +225,53 @@ func ruleWordReset(p *Prog, r *Result) {
 		if bk, isB := ph.Type().Underlying().(*types.Basic); !isB || bk.Kind() != types.Int {
 			continue
 		}
-		if v, ok := ph.Edges[backIdx].(*ssa.Phi); ok {
-			zero, inc := false, false
-			for _, e := range v.Edges {
-				if k, ok := constInt(e); ok && k == 0 {
-					zero = true
-				}
-				if bo, ok := e.(*ssa.BinOp); ok && bo.Op == token.ADD && bo.X == ssa.Value(ph) {
-					inc = true
-				}
+		zero, inc := false, false
+		for _, lf := range leaves {
+			a := lf.val[ph]
+			if k, ok := constInt(a.base); ok && k+a.off == 0 {
+				zero = true
 			}
-			if zero && inc {
-				hLen = ph
+			if a.base == ssa.Value(ph) && a.off == 1 {
+				inc = true
 			}
+		}
+		if zero && inc {
+			hLen = ph
 		}
 	}
 	if hI == nil || hStr == nil || hLen == nil || hStart == nil || hPos == nil {
 		r.undecided("scanner state variables could not be identified by their uses (index %v, in-string %v, length %v, start %v, offset %v)", hI != nil, hStr != nil, hLen != nil, hStart != nil, hPos != nil)
 		return
 	}
-	vStr, ok1 := hStr.Edges[backIdx].(*ssa.Phi)
-	vLen, ok2 := hLen.Edges[backIdx].(*ssa.Phi)
-	vStart, ok3 := hStart.Edges[backIdx].(*ssa.Phi)
-	vPos, ok4 := hPos.Edges[backIdx].(*ssa.Phi)
-	if !ok1 || !ok2 || !ok3 || !ok4 || vStr.Block() != vLen.Block() || vLen.Block() != vStart.Block() || vStart.Block() != vPos.Block() {
-		r.undecided("the scanner's arms do not merge in one block carrying the four state variables")
+	if len(leaves) < 2 {
+		r.undecided("the scanner's arms do not merge in phis carrying the state variables")
 		return
 	}
-	M := vLen.Block()
-	isNext := func(v ssa.Value) bool { // i + 1
-		bo, ok := v.(*ssa.BinOp)
-		if !ok || bo.Op != token.ADD || bo.X != ssa.Value(hI) {
-			return false
-		}
-		k, ok := constInt(bo.Y)
-		return ok && k == 1
-	}
 	nEdges := 0
-	for j, pred := range M.Preds {
+	for j, lf := range leaves {
 		nEdges++
-		sv, lv, stv, pv := vStr.Edges[j], vLen.Edges[j], vStart.Edges[j], vPos.Edges[j]
-		atoms := edgeAtoms(pred, M)
+		pred := lf.pred
+		sv, lv, stv, pv, iv := lf.val[hStr], lf.val[hLen], lf.val[hStart], lf.val[hPos], lf.val[hI]
+		atoms := edgeAtoms(pred, lf.to)
+		desc := fmt.Sprintf("arm ending at %s", p.InstrPos(pred.Instrs[len(pred.Instrs)-1]))
+		key := fmt.Sprintf("arm#%02d", j+1)
+		at := p.InstrPos(pred.Instrs[len(pred.Instrs)-1])
+		// the index advances by one byte, or by two when the arm tested the look-ahead character (and consumed it)
+		look := false
+		for _, a := range atoms {
+			if a.Op == token.EQL && isNextChar(p, a.X, hI) {
+				if _, ok := constInt(a.Y); ok {
+					look = true
+				}
+			}
+		}
+		advOK := iv.base == ssa.Value(hI) && (iv.off == 1 || (iv.off == 2 && look))
+		if !advOK || iv.off != 1 {
+			r.add(advOK, key+"|advance", at, desc+": the scan index advances by one byte per iteration (two only in an arm that matched the look-ahead character and emitted both bytes as one token)")
+		}
+		// i+1 of this way round the loop: the index of the next iteration
+		isNext := func(v aff) bool { return v.base == ssa.Value(hI) && v.off == iv.off }
+		same := func(v aff, h *ssa.Phi) bool { return v.base == ssa.Value(h) && v.off == 0 }
 		// in-string status before / after this arm
 		before := 0 // 1 in string, -1 outside, 0 unknown
 		for _, a := range atoms {
@@ -162,17 +286,17 @@ func ruleWordReset(p *Prog, r *Result) {
 			}
 		}
 		after := before
-		if bv, isB := constBool(sv); isB {
+		if bv, isB := constBool(sv.base); isB {
 			if bv {
 				after = 1
 			} else {
 				after = -1
 			}
-		} else if sv != ssa.Value(hStr) {
+		} else if sv.base != ssa.Value(hStr) {
 			after = 0
 		}
 		lenZero := false
-		if k, ok := constInt(lv); ok && k == 0 {
+		if k, ok := constInt(lv.base); ok && k+lv.off == 0 {
 			lenZero = true
 		}
 		lenWasZero := false
@@ -183,22 +307,20 @@ func ruleWordReset(p *Prog, r *Result) {
 				}
 			}
 		}
-		desc := fmt.Sprintf("arm ending at %s", p.InstrPos(pred.Instrs[len(pred.Instrs)-1]))
-		key := fmt.Sprintf("arm#%02d", j+1)
 		switch {
 		case after == 1 && before == -1:
 			// (ii) entering string mode
-			okv := lenZero && isNext(stv) && pv == ssa.Value(hI)
-			r.add(okv, key+"|enter-string", p.InstrPos(pred.Instrs[len(pred.Instrs)-1]), desc+": entering a quoted literal must leave length 0 (pending word emitted), start = i+1, offset = i")
+			okv := lenZero && isNext(stv) && pv.base == ssa.Value(hI) && pv.off == iv.off-1
+			r.add(okv, key+"|enter-string", at, desc+": entering a quoted literal must leave length 0 (pending word emitted), start = i+1, offset = i")
 		case after == -1 && lenZero:
 			// (i) a token/word boundary outside string mode
 			okv := isNext(stv) && isNext(pv)
-			r.add(okv, key+"|boundary", p.InstrPos(pred.Instrs[len(pred.Instrs)-1]), desc+": after a boundary (length reset to 0 outside a literal) the next word starts at i+1: start index and start offset must both be i+1")
+			r.add(okv, key+"|boundary", at, desc+": after a boundary (length reset to 0 outside a literal) the next word starts at i+1: start index and start offset must both be i+1")
 		default:
 			// (iii) inside a word or a literal: start/offset untouched, unless lazily armed on the first character of a word
-			keep := stv == ssa.Value(hStart) && pv == ssa.Value(hPos)
-			lazy := before == -1 && lenWasZero && (stv == ssa.Value(hI) || stv == ssa.Value(hStart)) && (pv == ssa.Value(hI) || pv == ssa.Value(hPos))
-			r.add(keep || lazy, key+"|inside", p.InstrPos(pred.Instrs[len(pred.Instrs)-1]), desc+": inside a word or literal the recorded start index and start offset must not move")
+			keep := same(stv, hStart) && same(pv, hPos)
+			lazy := before == -1 && lenWasZero && (same(stv, hI) || same(stv, hStart)) && (same(pv, hI) || same(pv, hPos))
+			r.add(keep || lazy, key+"|inside", at, desc+": inside a word or literal the recorded start index and start offset must not move")
 		}
 	}
 	r.note("arms", nEdges)
